@@ -29,6 +29,11 @@ Bounded exhaustive exploration of calc_rdm_unbalanced / calc_one_similarity:
             stay O(1)) and not; mahalanobis / crossnobis with and without folds, and balanced designs; judged
             by all oracles with tolerances relative to (data scale)^2 * (precision scale), plus the law
             d(c*P) == c*d(P) for the full computation and h(c*P) == c*h(P) for the single-pair helper
+  dtype     measurement dtypes int64 / int32 / uint8 (counts 0..6 and 0..240) / float32 / bool on the designs
+            where calc_rdm must coincide - every partition of n <= 5 (repetitions: euclidean, mahalanobis;
+            one observation per condition with and without descriptor: + correlation, poisson; balanced
+            occurrence folds: crossnobis) and 16 fold-balanced designs (crossnobis, poisson_cv): unbalanced
+            == definition on the values the typed array holds == calc_rdm on the same typed array
   list      input forms crossed with the options: the dataset argument as single object / list of 1 / list or
             tuple of 2-3 datasets (every ordered pair of partitions of <= 4 observations into the same K
             conditions: different repetition counts, row orders, label orders, fold codings) x noise as
@@ -109,6 +114,7 @@ ASSUMPTIONS = [
 ]
 TOL = 1e-9
 TOL_INV = 1e-12
+TOL_F32 = 1e-5
 TOLERANCES = {'value vs reference / calc_rdm': TOL, 'dtype / layout invariance': TOL_INV,
               'helper identity': 1e-8,
               'rule': '|a-b| <= tol * max(unit, |a|, |b|); unit = c^2 for data multiplied by c (euclidean, '
@@ -117,6 +123,7 @@ TOLERANCES = {'value vs reference / calc_rdm': TOL, 'dtype / layout invariance':
                       'with a precision matrix',
               'poisson vs calc_rdm': 'additionally 64 ulp of the largest term |u log u| of calc_rdm\'s formula '
                                      '(its rounding error does not shrink with the dissimilarity)',
+              'float32 vs calc_rdm': '%g of max(1, max x^2): calc_rdm works in single precision there' % TOL_F32,
               'arguments / sequences': 'bit-identical'}
 BOUNDS = {
     'quick': {'n_obs': '1..5, every set partition (75)', 'n_channel': [2, 3],
@@ -137,6 +144,8 @@ BOUNDS = {
               'precision_scales': 'n in 1..4, every partition, P=3; forms full / diagonal / nearly diagonal x scales '
                                   '1e-10, 1e-6, 1e6 x data scaled inversely or not; mahalanobis / crossnobis, with and '
                                   'without folds, both weightings; 4 balanced designs against calc_rdm',
+              'dtypes': 'int64, int32, uint8, uint8 up to 240, float32, bool x every partition of n in 2..5 (P=3) + 8 '
+                        'balanced designs in 2 row orders; integer-valued fills with non-integer condition means',
               'input_forms': 'K in {2,3} conditions, member datasets = every partition of K..4 observations into K '
                              'conditions: every single dataset (as object, list of 1, tuple), every ordered pair, one '
                              'triple per partition; 6 (container, noise form) combinations x cv_descriptor x '
@@ -287,7 +296,6 @@ def _prec(seed, n_ch, which=0):
 
 PSCALES = (1e-10, 1e-6, 1e6)
 DTYPES = ('int64', 'int32', 'uint8', 'uint8big', 'float32', 'bool')
-TOL_F32 = 1e-5
 
 
 def _typed(base, tag, poisson):
